@@ -190,6 +190,42 @@ def is_set_value(r):
     return (hasattr(r, "ranges") and hasattr(r, "items")) or isinstance(r, (set, frozenset))
 
 
+def text_parts(t):
+    """Fields of a rendered text: engine symbolic text -> list of literal strings / int terms; real str -> itself."""
+    if hasattr(t, "tag") and t.tag == "text":
+        return list(t.attrs["parts"])
+    return t
+
+
+def text_equals(t, expected):
+    """t renders exactly the sequence ``expected`` (str items literally, int items in decimal)."""
+    if isinstance(t, str):
+        return t == "".join(str(x) for x in expected)
+    parts = text_parts(t)
+    exp = []
+    for x in expected:
+        if isinstance(x, int) and not isinstance(x, bool):
+            x = str(x)
+        if isinstance(x, str):
+            if x:
+                if exp and isinstance(exp[-1], str):
+                    exp[-1] += x
+                else:
+                    exp.append(x)
+        else:
+            exp.append(("int", x))
+    if not isinstance(parts, list) or len(parts) != len(exp):
+        return False
+    conds = []
+    for a, b in zip(parts, exp):
+        if isinstance(a, str) or isinstance(b, str):
+            if a != b:
+                return False
+        else:
+            conds.append(a[1] == b[1])
+    return And(*conds) if conds else True
+
+
 def is_none(x):
     return x is None
 
